@@ -162,6 +162,8 @@ type ClpParams struct {
 	RewardsLock   uint64
 	RewardsWallet bool
 	EpochID       string
+	Margin        []int64  // denom ids of the pools enabled for margin trading (x/margin Params.Pools)
+	RqThreshold   *big.Int // x/margin Params.RemovalQueueThreshold (Dec)
 }
 type ClpState struct {
 	Params   ClpParams
@@ -281,6 +283,16 @@ func (e *Env) Snapshot() ClpState {
 	s.Params.RewardsLock = rp.RewardsLockPeriod
 	s.Params.RewardsWallet = rp.RewardsDistribute
 	s.Params.EpochID = rp.RewardsEpochIdentifier
+	mp := e.App.MarginKeeper.GetParams(ctx)
+	for _, sym := range mp.Pools {
+		if id, ok := e.DenomID[sym]; ok {
+			s.Params.Margin = append(s.Params.Margin, id)
+		}
+	}
+	s.Params.RqThreshold = new(big.Int)
+	if !mp.RemovalQueueThreshold.IsNil() {
+		s.Params.RqThreshold.Set(mp.RemovalQueueThreshold.BigInt())
+	}
 	for _, en := range e.App.TokenRegistryKeeper.GetRegistry(ctx).Entries {
 		if en == nil {
 			continue
@@ -439,5 +451,14 @@ func (e *Enc) Clp(s ClpState) *Enc {
 		e.I(w)
 	}
 	e.U(s.Params.RewardsLock).B(s.Params.RewardsWallet)
+	e.Len(len(s.Params.Margin))
+	for _, m := range s.Params.Margin {
+		e.I(m)
+	}
+	if s.Params.RqThreshold == nil {
+		e.Z(new(big.Int))
+	} else {
+		e.Z(s.Params.RqThreshold)
+	}
 	return e
 }
